@@ -1,7 +1,7 @@
 #!/bin/bash
 # usage: tools/mutcheck.sh <patch.diff> <Cxx> [quick|thorough]  -- applies a seeded change to /repo, runs the check, reverts.
 set -u
-P="$1"; ID="$2"; T="${3:-quick}"
+P="$(realpath "$1")"; ID="$2"; T="${3:-quick}"
 cd /repo || exit 2
 if [ -n "$(git status --porcelain)" ]; then echo "repo not clean"; exit 2; fi
 if ! git apply "$P" 2>/dev/null && ! git apply --3way "$P" 2>/dev/null; then echo "APPLY-FAILED $P"; git checkout -- . ; exit 3; fi
